@@ -271,6 +271,10 @@ func Values(k Kind, thorough bool) []Val {
 		if k == KOctet {
 			out = append(out, Val{K: k, S: []byte{0, 0xff, 0x80}}, Val{K: k, S: []byte{0}})
 		}
+		// text that begins or ends with white space (a line end, indentation, a lone blank): data like any other
+		for _, t := range []string{" lead", "trail \r\n", " ", "\ta\n", "x\x00"} {
+			out = append(out, Val{K: k, S: []byte(t)})
+		}
 	case KUnknown:
 		for _, n := range []int{0, 1, 2, 3, 4, 5, 8, 9} {
 			out = append(out, Val{K: k, S: rep(0xf0, n)})
